@@ -1934,11 +1934,12 @@ class Interp:
         opname = type(node.op).__name__
         tgt = node.target
         if isinstance(tgt, ast.Name):
+            cur0 = self.lookup(tgt.id, st)  # CPython loads the target BEFORE it evaluates the right-hand side
             for st1, rhs in list(self.ev(node.value, st)):
                 if isinstance(rhs, Exc):
                     yield st1, ("raise", rhs.exc)
                     continue
-                cur = self.lookup(tgt.id, st1)
+                cur = cur0
                 for st2, r in self.models.binop(self, st1, opname, cur, rhs, inplace=True):
                     if isinstance(r, Exc):
                         yield st2, ("raise", r.exc)
@@ -1946,37 +1947,47 @@ class Interp:
                         self.bind_name(st2, tgt.id, r)
                         yield st2, None
         elif isinstance(tgt, ast.Attribute):
-            for st1, vs in self.ev_many([tgt.value, node.value], st):
-                if isinstance(vs, Exc):
-                    yield st1, ("raise", vs.exc)
+            # CPython's order for `o.a op= rhs`: evaluate o, LOAD o.a, evaluate rhs, operate, store - a right-hand side that
+            # itself changes o.a (self.n += self.bump()) does not change the value that was already loaded
+            for st1, obj in list(self.ev(tgt.value, st)):
+                if isinstance(obj, Exc):
+                    yield st1, ("raise", obj.exc)
                     continue
-                obj, rhs = vs
                 for st2, cur in list(self.getattr(obj, self.mangle(tgt.attr, st1), st1)):
                     if isinstance(cur, Exc):
                         yield st2, ("raise", cur.exc)
                         continue
-                    for st3, r in self.models.binop(self, st2, opname, cur, rhs, inplace=True):
-                        if isinstance(r, Exc):
-                            yield st3, ("raise", r.exc)
+                    for st2b, rhs in list(self.ev(node.value, st2)):
+                        if isinstance(rhs, Exc):
+                            yield st2b, ("raise", rhs.exc)
                             continue
-                        for st4, r2 in self.models.setattr(self, st3, obj, self.mangle(tgt.attr, st3), r):
-                            yield st4, (("raise", r2.exc) if isinstance(r2, Exc) else None)
+                        for st3, r in self.models.binop(self, st2b, opname, cur, rhs, inplace=True):
+                            if isinstance(r, Exc):
+                                yield st3, ("raise", r.exc)
+                                continue
+                            for st4, r2 in self.models.setattr(self, st3, obj, self.mangle(tgt.attr, st3), r):
+                                yield st4, (("raise", r2.exc) if isinstance(r2, Exc) else None)
         elif isinstance(tgt, ast.Subscript):
-            for st1, vs in self.ev_many([tgt.value, tgt.slice, node.value], st):
+            # same order for `o[i] op= rhs`: o, i, LOAD o[i], rhs, operate, store
+            for st1, vs in self.ev_many([tgt.value, tgt.slice], st):
                 if isinstance(vs, Exc):
                     yield st1, ("raise", vs.exc)
                     continue
-                obj, idx, rhs = vs
+                obj, idx = vs
                 for st2, cur in list(self.models.getitem(self, st1, obj, idx)):
                     if isinstance(cur, Exc):
                         yield st2, ("raise", cur.exc)
                         continue
-                    for st3, r in self.models.binop(self, st2, opname, cur, rhs, inplace=True):
-                        if isinstance(r, Exc):
-                            yield st3, ("raise", r.exc)
+                    for st2b, rhs in list(self.ev(node.value, st2)):
+                        if isinstance(rhs, Exc):
+                            yield st2b, ("raise", rhs.exc)
                             continue
-                        for st4, r2 in self.models.setitem(self, st3, obj, idx, r):
-                            yield st4, (("raise", r2.exc) if isinstance(r2, Exc) else None)
+                        for st3, r in self.models.binop(self, st2b, opname, cur, rhs, inplace=True):
+                            if isinstance(r, Exc):
+                                yield st3, ("raise", r.exc)
+                                continue
+                            for st4, r2 in self.models.setitem(self, st3, obj, idx, r):
+                                yield st4, (("raise", r2.exc) if isinstance(r2, Exc) else None)
         else:
             raise Unsupported("augmented assignment target")
 
